@@ -328,3 +328,7 @@ pub fn gen_script(rng: &mut Rng, len: usize, style: u64) -> Vec<Step> {
     }
     v
 }
+
+// ---------------------------------------------------------------------------------------------
+// shared infrastructure of the `e2e` binary
+pub mod e2e_lib;
